@@ -312,15 +312,22 @@ def gen_c19_case(rng, name, props):
     ids = Ids()
     ops = []
     now = [0, 0]
-    base = align_edge(rng, tadd(now, [rng.choice([0, 1, 30, 1000, 30000]), rng.randrange(0, NS)]))
+    if rng.random() < 0.4:
+        # current time with a sub-second part
+        now = [rng.randrange(0, 3), rng.choice([rng.randrange(1, NS), NS - 1, 900000000, 500000000])]
+        ops.append({"op": "run", "t": now, "idle": False})
+    base = align_edge(rng, tadd(now, [rng.choice([0, 1, 30, 1000, 30000, H - 2, H - 1, H - 1]), rng.randrange(0, NS)]))
     for rnd in range(rng.randrange(1, 4)):
         n = rng.randrange(2, 9)
         for _ in range(n):
             c = rng.random()
             if c < 0.35:
                 t = list(base)
-            elif c < 0.8:
+            elif c < 0.6:
                 t = tnorm(base[0], base[1] + rng.choice([-3, -2, -1, 1, 2, 3, 4]) * TICK + rng.choice([-1, 0, 1]))
+            elif c < 0.8:
+                # spread over a second or so (still close to `base`, e.g. just below the 32767 s limit)
+                t = tnorm(base[0], base[1] + rng.randrange(-NS, NS))
             else:
                 t = instant_near(rng, now)
             if t[0] < -1000:
